@@ -224,6 +224,13 @@ func Cons(a Sexp, b Sexp) *SexpPair {
 }
 
 func (pair *SexpPair) SexpString(ps *PrintState) string {
+	// the list the reader makes of ~@x: its head symbol has no spelling of its own
+	// (the lexer splits unquote-splicing at the dash), so print the shorthand back
+	if sym, isSym := pair.Head.(*SexpSymbol); isSym && sym.name == "unquote-splicing" {
+		if arg, isPair := pair.Tail.(*SexpPair); isPair && arg.Tail == SexpNull {
+			return "~@" + arg.Head.SexpString(ps)
+		}
+	}
 	str := "("
 
 	for {
